@@ -121,7 +121,9 @@ def oracle(cases, results):
         if k == 'crash':
             fs.append(fail(i, f'a non-compile exception escapes: {r.get("exc")} at {r.get("where")}: {r.get("msg", "")[:120]}', f'crash:{r.get("exc")}:{r.get("where")}'))
         elif k == 'hang':
-            fs.append(fail(i, 'compilation does not finish within the per-case timeout', 'hang:' + c.get('meta', {}).get('probe', c.get('meta', {}).get('family', '?'))))
+            where = r.get('where') or '?'
+            fs.append(fail(i, f'compilation does not finish within the per-case timeout (busy in {where})',
+                           'hang:' + (where if where != '?' else c.get('meta', {}).get('probe', c.get('meta', {}).get('family', '?')))))
         elif k == 'cerr' and r.get('trace_limit_bad'):
             fs.append(fail(i, f'stack_traceback(n) is not the n innermost entries: {r["trace_limit_bad"][:2]}', 'trace-limit'))
     return fs
